@@ -317,6 +317,10 @@ func init() {
 		}
 		return out
 	}
+	h["vInlineGo"] = func(fr *frame, args []value) value {
+		fr.i.sch.inlineGo = args[0].(bool)
+		return nil
+	}
 	h["vSetClock"] = func(fr *frame, args []value) value {
 		fr.i.run.clockMode = 2
 		fr.i.run.clockFixed = args[0]
